@@ -110,6 +110,41 @@ def r18_3(ctx, rep):
         raise MechanismMissing(R, "fewer than 2 name-building sites found in _expand_vectors")
 
 
+@SPEC.rule(
+    "R18.4",
+    "element correspondence: inside the loop over np.ndindex(<shape>) every element taken from an array-valued "
+    "attribute is indexed with that multi-index itself (or, for nested lists, with its components in order) — not "
+    "with a position derived some other way",
+)
+def r18_4(ctx, rep):
+    R = "R18.4"
+    fn = ctx.func(MODEL, "Model._expand_vectors", R)
+    n = 0
+    for lp in ast.walk(fn):
+        if isinstance(lp, ast.For) and "np.ndindex(" in norm(lp.iter) and any("CASADI_ATTRIBUTES" in norm(x) for x in ast.walk(lp)):
+            if not isinstance(lp.target, ast.Name):
+                rep.ob(R, SITE, "multi-index loop target", False,
+                       "the loop over np.ndindex must bind the multi-index itself (found target `%s`): elements are then taken by another position" % norm(lp.target))
+                n += 1
+                continue
+            ind = lp.target.id
+            comps = set()
+            for x in ast.walk(lp):
+                if isinstance(x, ast.For) and is_name(x.iter, ind) and isinstance(x.target, ast.Name):
+                    comps.add(x.target.id)
+            for x in ast.walk(lp):
+                if isinstance(x, ast.Assign) and isinstance(x.value, ast.Subscript) and isinstance(x.value.value, ast.Name) \
+                        and x.value.value.id in ("value", "val") and isinstance(x.targets[0], ast.Name) and x.targets[0].id == "val":
+                    n += 1
+                    sl = x.value.slice
+                    ok = is_name(sl, ind) or (isinstance(sl, ast.Name) and sl.id in comps)
+                    rep.ob(R, SITE, "element `%s`" % norm(x), ok,
+                           "the attribute element of the scalar named by multi-index `%s` must be value[%s]; `%s` picks another element "
+                           "(e.g. column-major linear position of a CasADi matrix vs row-major ndindex order)" % (ind, ind, norm(x.value)))
+    if n < 3:
+        raise MechanismMissing(R, "fewer than 3 attribute element accesses found in the ndindex loop of _expand_vectors")
+
+
 # -- seeded variants ---------------------------------------------------------
 from ._mut import replace_in_func  # noqa: E402
 
@@ -156,6 +191,18 @@ def _m4(mod):
         for n in ast.walk(fn):
             if isinstance(n, ast.Assign) and norm(n.value) == "self.delay_arguments.pop(i)":
                 n.value = ast.parse("self.delay_arguments.pop(0)", mode="eval").body
+                return True
+        return False
+
+    return mod if replace_in_func(mod, "Model._expand_vectors", edit) else None
+
+
+@SPEC.mutant("attribute element by flat position", MODEL, "R18.4", "element")
+def _m5(mod):
+    def edit(fn):
+        for x in ast.walk(fn):
+            if isinstance(x, ast.Assign) and norm(x) == "val = value[ind]":
+                x.value.slice = ast.parse("len(expanded_symbols)", mode="eval").body
                 return True
         return False
 
